@@ -256,3 +256,204 @@ Proof.
   - injection E as E1 E2.
     split; [exact Hr1|]. split; [rewrite Hv1; exact E1 | rewrite Hf1; exact E2].
 Qed.
+
+(* ================= 5. projections ================= *)
+
+Lemma uval_of_sval w n r : 0 < w -> wf w n r -> uval w r = sval w r mod Mod w n.
+Proof.
+  intros Hw Hr. rewrite (sval_mod w n r Hw Hr). symmetry. apply Z.mod_small.
+  apply uval_bounds; [lia | exact Hr].
+Qed.
+
+Lemma sval_inj w n a b : 0 < w -> wf w n a -> wf w n b -> sval w a = sval w b -> a = b.
+Proof.
+  intros Hw Ha Hb E. apply (uval_inj w n); [lia | assumption | assumption |].
+  rewrite (uval_of_sval w n a), (uval_of_sval w n b) by assumption. rewrite E. reflexivity.
+Qed.
+
+Lemma add_mod_signed w n a b : 0 < w -> wf w n a -> wf w n b ->
+  (sval w a + sval w b) mod Mod w n = (uval w a + uval w b) mod Mod w n.
+Proof.
+  intros Hw Ha Hb. pose proof (Mod_pos w n ltac:(lia)).
+  rewrite Z.add_mod, (sval_mod w n a), (sval_mod w n b), <- Z.add_mod by (assumption || lia). reflexivity.
+Qed.
+
+Lemma sub_mod_signed w n a b : 0 < w -> wf w n a -> wf w n b ->
+  (sval w a - sval w b) mod Mod w n = (uval w a - uval w b) mod Mod w n.
+Proof.
+  intros Hw Ha Hb. pose proof (Mod_pos w n ltac:(lia)).
+  rewrite Zminus_mod, (sval_mod w n a), (sval_mod w n b), <- Zminus_mod by (assumption || lia). reflexivity.
+Qed.
+
+(* BInt::wrapping_add / wrapping_sub run the unsigned loop: same digits as the signed loop *)
+Theorem I_wrapping_add_eq w n a b : 0 < w -> (0 < n)%nat -> wf w n a -> wf w n b ->
+  I_wrapping_add w a b = fst (I_overflowing_add w a b).
+Proof.
+  intros Hw Hn Ha Hb.
+  pose proof (I_overflowing_add_ok w n a b Hw Hn Ha Hb) as HI.
+  pose proof (U_overflowing_add_ok w n a b Hw Ha Hb) as HU.
+  unfold I_wrapping_add, U_wrapping_add.
+  destruct (I_overflowing_add w a b) as [ri fi]. destruct (U_overflowing_add w a b) as [ru fu].
+  cbn [fst]. destruct HI as (Hri & Hvi & _). destruct HU as (Hru & Hvu & _).
+  apply (uval_inj w n); [lia | assumption | assumption |].
+  rewrite Hvu, (uval_of_sval w n ri Hw Hri), Hvi.
+  rewrite wrapS_mod by (apply Mod_pos; lia). symmetry. apply add_mod_signed; assumption.
+Qed.
+
+Theorem I_wrapping_sub_eq w n a b : 0 < w -> (0 < n)%nat -> wf w n a -> wf w n b ->
+  I_wrapping_sub w a b = fst (I_overflowing_sub w a b).
+Proof.
+  intros Hw Hn Ha Hb.
+  pose proof (I_overflowing_sub_ok w n a b Hw Hn Ha Hb) as HI.
+  pose proof (U_overflowing_sub_ok w n a b Hw Ha Hb) as HU.
+  unfold I_wrapping_sub, U_wrapping_sub.
+  destruct (I_overflowing_sub w a b) as [ri fi]. destruct (U_overflowing_sub w a b) as [ru fu].
+  cbn [fst]. destruct HI as (Hri & Hvi & _). destruct HU as (Hru & Hvu & _).
+  apply (uval_inj w n); [lia | assumption | assumption |].
+  rewrite Hvu, (uval_of_sval w n ri Hw Hri), Hvi.
+  rewrite wrapS_mod by (apply Mod_pos; lia). symmetry. apply sub_mod_signed; assumption.
+Qed.
+
+Theorem U_add_projections w a b dbg :
+  let '(r, f) := U_overflowing_add w a b in
+  U_checked_add w a b = (if f then None else Some r) /\
+  U_wrapping_add w a b = r /\
+  U_strict_add w a b = (if f then Panic else Ret r) /\
+  U_add dbg w a b = (if f then (if dbg then Panic else Ret r) else Ret r).
+Proof.
+  unfold U_add, U_strict_add, U_checked_add, U_wrapping_add, tuple_to_option, option_expect.
+  destruct (U_overflowing_add w a b) as [r f]. cbn [fst snd].
+  destruct f, dbg; repeat split; reflexivity.
+Qed.
+
+Theorem U_sub_projections w a b dbg :
+  let '(r, f) := U_overflowing_sub w a b in
+  U_checked_sub w a b = (if f then None else Some r) /\
+  U_wrapping_sub w a b = r /\
+  U_strict_sub w a b = (if f then Panic else Ret r) /\
+  U_sub dbg w a b = (if f then (if dbg then Panic else Ret r) else Ret r).
+Proof.
+  unfold U_sub, U_strict_sub, U_checked_sub, U_wrapping_sub, tuple_to_option, option_expect.
+  destruct (U_overflowing_sub w a b) as [r f]. cbn [fst snd].
+  destruct f, dbg; repeat split; reflexivity.
+Qed.
+
+Theorem U_add_signed_projections w a b :
+  let '(r, f) := U_overflowing_add_signed w a b in
+  U_checked_add_signed w a b = (if f then None else Some r) /\
+  U_wrapping_add_signed w a b = r.
+Proof.
+  unfold U_checked_add_signed, U_wrapping_add_signed, tuple_to_option.
+  destruct (U_overflowing_add_signed w a b) as [r f]. cbn [fst snd]. split; reflexivity.
+Qed.
+
+(* checked_neg is coded as `if self.is_zero() { Some(self) } else { None }` *)
+Theorem U_checked_neg_zero w n a : 0 < w -> wf w n a ->
+  U_checked_neg a = (if uval w a =? 0 then Some a else None).
+Proof.
+  intros Hw Ha. unfold U_checked_neg. rewrite (is_zero_spec w ltac:(lia) n a Ha). reflexivity.
+Qed.
+
+Theorem U_neg_projections w n a : 0 < w -> (0 < n)%nat -> wf w n a ->
+  let '(r, f) := U_overflowing_neg w a in
+  U_checked_neg a = (if f then None else Some r) /\
+  U_wrapping_neg w a = r /\
+  U_strict_neg a = (if f then Panic else Ret r).
+Proof.
+  intros Hw Hn Ha. pose proof (U_overflowing_neg_ok w n a Hw Hn Ha) as H.
+  unfold U_strict_neg, U_wrapping_neg. rewrite (U_checked_neg_zero w n a Hw Ha).
+  destruct (U_overflowing_neg w a) as [r f]. cbn [fst]. destruct H as (Hr & Hv & Hf).
+  subst f. destruct (Z.eqb_spec (uval w a) 0) as [E|NE]; cbn [negb option_expect].
+  - assert (r = a).
+    { apply (uval_inj w n); [lia | assumption | assumption |].
+      rewrite Hv, E. apply Z.mod_0_l. pose proof (Mod_pos w n); lia. }
+    subst r. repeat split; reflexivity.
+  - repeat split; reflexivity.
+Qed.
+
+Theorem I_add_projections w n a b dbg : 0 < w -> (0 < n)%nat -> wf w n a -> wf w n b ->
+  let '(r, f) := I_overflowing_add w a b in
+  I_checked_add w a b = (if f then None else Some r) /\
+  I_wrapping_add w a b = r /\
+  I_strict_add w a b = (if f then Panic else Ret r) /\
+  I_add dbg w a b = (if f then (if dbg then Panic else Ret r) else Ret r).
+Proof.
+  intros Hw Hn Ha Hb. pose proof (I_wrapping_add_eq w n a b Hw Hn Ha Hb) as E.
+  unfold I_add, I_strict_add, I_checked_add, tuple_to_option, option_expect. rewrite E.
+  destruct (I_overflowing_add w a b) as [r f]. cbn [fst snd].
+  destruct f, dbg; repeat split; reflexivity.
+Qed.
+
+Theorem I_sub_projections w n a b dbg : 0 < w -> (0 < n)%nat -> wf w n a -> wf w n b ->
+  let '(r, f) := I_overflowing_sub w a b in
+  I_checked_sub w a b = (if f then None else Some r) /\
+  I_wrapping_sub w a b = r /\
+  I_strict_sub w a b = (if f then Panic else Ret r) /\
+  I_sub dbg w a b = (if f then (if dbg then Panic else Ret r) else Ret r).
+Proof.
+  intros Hw Hn Ha Hb. pose proof (I_wrapping_sub_eq w n a b Hw Hn Ha Hb) as E.
+  unfold I_sub, I_strict_sub, I_checked_sub, tuple_to_option, option_expect. rewrite E.
+  destruct (I_overflowing_sub w a b) as [r f]. cbn [fst snd].
+  destruct f, dbg; repeat split; reflexivity.
+Qed.
+
+Theorem I_neg_projections w a dbg :
+  let '(r, f) := I_overflowing_neg w a in
+  I_checked_neg w a = (if f then None else Some r) /\
+  I_wrapping_neg w a = r /\
+  I_strict_neg w a = (if f then Panic else Ret r) /\
+  I_neg dbg w a = (if f then (if dbg then Panic else Ret r) else Ret r).
+Proof.
+  unfold I_neg, I_strict_neg, I_checked_neg, I_wrapping_neg, tuple_to_option, option_expect.
+  destruct (I_overflowing_neg w a) as [r f]. cbn [fst snd].
+  destruct f, dbg; repeat split; reflexivity.
+Qed.
+
+Lemma wrapS_half M : 0 < M -> M = 2 * (M / 2) -> wrapS M (M / 2) = - (M / 2).
+Proof.
+  intros HM He. replace (M / 2) with (- (M / 2) + 1 * M) at 1 by lia.
+  rewrite wrapS_shift by lia. apply wrapS_id; lia.
+Qed.
+
+(* in release builds `abs` returns MIN for MIN: that IS the wrapped value *)
+Theorem I_abs_projections w n a dbg : 0 < w -> (0 < n)%nat -> wf w n a ->
+  let '(r, f) := I_overflowing_abs w a in
+  I_checked_abs w a = (if f then None else Some r) /\
+  I_wrapping_abs w a = r /\
+  I_strict_abs w a = (if f then Panic else Ret r) /\
+  I_abs dbg w a = (if f then (if dbg then Panic else Ret r) else Ret r).
+Proof.
+  intros Hw Hn Ha. pose proof (I_overflowing_abs_ok w n a Hw Hn Ha) as H.
+  unfold I_abs, I_strict_abs, I_checked_abs, I_wrapping_abs, tuple_to_option, option_expect.
+  destruct (I_overflowing_abs w a) as [r f]. cbn [fst snd]. destruct H as (Hr & Hv & Hf).
+  destruct f.
+  - assert (E : IMIN w (length a) = r).
+    { destruct n as [|k]; [lia|]. rewrite (wf_length _ _ _ Ha).
+      apply (sval_inj w (S k)); [assumption | apply IMIN_wf; assumption | assumption |].
+      rewrite IMIN_sval by assumption. rewrite Hv.
+      pose proof (sval_range w (S k) a Hw ltac:(lia) Ha) as HR.
+      pose proof (Mod_even' w k Hw) as HE. pose proof (Mod_pos w (S k) ltac:(lia)) as HM.
+      symmetry in Hf. apply negb_true_iff, inS_false in Hf.
+      assert (Z.abs (sval w a) = Mod w (S k) / 2) as -> by lia.
+      symmetry. apply wrapS_half; assumption. }
+    rewrite E. destruct dbg; repeat split; reflexivity.
+  - destruct dbg; repeat split; reflexivity.
+Qed.
+
+Theorem I_add_unsigned_projections w a b :
+  let '(r, f) := I_overflowing_add_unsigned w a b in
+  I_checked_add_unsigned w a b = (if f then None else Some r) /\
+  I_wrapping_add_unsigned w a b = r.
+Proof.
+  unfold I_checked_add_unsigned, I_wrapping_add_unsigned, tuple_to_option.
+  destruct (I_overflowing_add_unsigned w a b) as [r f]. cbn [fst snd]. split; reflexivity.
+Qed.
+
+Theorem I_sub_unsigned_projections w a b :
+  let '(r, f) := I_overflowing_sub_unsigned w a b in
+  I_checked_sub_unsigned w a b = (if f then None else Some r) /\
+  I_wrapping_sub_unsigned w a b = r.
+Proof.
+  unfold I_checked_sub_unsigned, I_wrapping_sub_unsigned, tuple_to_option.
+  destruct (I_overflowing_sub_unsigned w a b) as [r f]. cbn [fst snd]. split; reflexivity.
+Qed.
